@@ -327,11 +327,21 @@ fn plan_inner(prop: &str, tier: &str) -> Option<Plan> {
                 for (n, l, v) in muts {
                     jobs.push(job(prop, "lockstep", f, tier, json!({"n": n, "max_l": l, "mode": "mutate", "vals": v})));
                 }
+                // every history of <= d operations on one object of each flavour, unmerged: (nodes, d, shards)
+                let deep: Vec<(usize, usize, usize)> = if tier == "quick" { vec![(2, 5, 4), (3, 4, 8)] } else { vec![(2, 6, 16), (3, 5, 32)] };
+                for (n, d, sh) in deep {
+                    jobs.extend(sharded(prop, "lockstep", f, tier, json!({"n": n, "max_l": d, "mode": "deep"}), sh));
+                }
+                // programs that mutate the graph from inside an edge loop or a traversal closure
+                let loops: Vec<(usize, usize, usize)> = if tier == "quick" { vec![(2, 2, 2), (3, 2, 16)] } else { vec![(2, 3, 8), (3, 2, 16), (3, 3, 32)] };
+                for (n, l, sh) in loops {
+                    jobs.extend(sharded(prop, "lockstep", f, tier, json!({"n": n, "max_l": l, "mode": "loops"}), sh));
+                }
             }
             Some(Plan {
                 jobs,
                 level: "model_checking".into(),
-                rule: "lock-step product exploration: (a) BFS over the plain flavour's adjacency state space, every transition applied to a plain and a sync object built from the same history, returns and complete observations compared; (b) on every canonical shape the whole read-only API (queries, comparison operators, edge equality, every search/ordering configuration with every filter subset, container calls, scc, DOT, JSON/CBOR) is run on both flavours and the transcripts compared entry by entry; (c) a lighter transcript (every traversal kind x transpose x {no target, last node, the root} x every terminal x both builder orders from three roots with a recording closure, scc, DOT, JSON) on the large structured families (chains, cycles, fans of 2..18 nodes quick / 2..34 thorough plus every single extra edge; the largest size also with descending and all-equal node values) and on the priority-queue family (root, k children, k grandchildren, every assignment of the values 1..2k; k = 3 quick, 4 thorough). evaluations = transitions + transcript entries compared".into(),
+                rule: "lock-step product exploration: (a) BFS over the plain flavour's adjacency state space, every transition applied to a plain and a sync object built from the same history, returns and complete observations compared; (b) on every canonical shape the whole read-only API (queries, comparison operators, edge equality, every search/ordering configuration with every filter subset, container calls, scc, DOT, JSON/CBOR) is run on both flavours and the transcripts compared entry by entry; (c) a lighter transcript (every traversal kind x transpose x {no target, last node, the root} x every terminal x both builder orders from three roots with a recording closure, scc, DOT, JSON) on the large structured families (chains, cycles, fans of 2..18 nodes quick / 2..34 thorough plus every single extra edge; the largest size also with descending and all-equal node values) and on the priority-queue family (root, k children, k grandchildren, every assignment of the values 1..2k; k = 3 quick, 4 thorough); (d) every history of <= d operations (quick: 2 nodes d=5, 3 nodes d=4; thorough d=6 / 5) executed on one object of each flavour without merging states; (e) every small shape x root x every loop kind (edge iterators by for / by hand / through every adaptor method, every traversal with for_each / filter) x every mutating operation executed from inside the loop at every step: edges handed to the body, traversal result and final adjacency compared. evaluations = transitions + transcript entries compared".into(),
                 bounds: json!({"quick": "read: (2 nodes,<=3 edges),(3,<=3), each with distinct and with all-equal node values; mutate: (2,4,2 values),(3,3,2)", "thorough": "read: (2,4),(3,3),(4,2); mutate: (2,5,2),(3,4,2),(4,3,1)"}),
                 exhaustive: true,
                 assumptions: vec![
